@@ -18,15 +18,19 @@ import (
 	"verif/internal/walk"
 )
 
+// Leaf carries two immediate rules and one either group: the group clause is produced after the whole walk, so the
+// path it is reported under must have been kept per sub-object.
 type Leaf struct {
-	V string `valid:"required"`
-	W int    `valid:"to=1~3"`
+	V  string `valid:"required"`
+	W  int    `valid:"to=1~3"`
+	G1 string `valid:"either=7"`
+	G2 string `valid:"either=7"`
 }
 
 var (
 	leafZ   = Leaf{}
-	leafOK  = Leaf{"x", 2}
-	leafBAD = Leaf{"", 9}
+	leafOK  = Leaf{"x", 2, "", "g"}
+	leafBAD = Leaf{"", 9, "", ""}
 	leafT   = reflect.TypeOf(Leaf{})
 )
 
@@ -202,36 +206,49 @@ func compare(c *runner.Ctx, src interface{}, desc string, nt *bool) {
 		}
 		return
 	}
-	got := errparse.Split(actual)
-	want := append(append([]string{}, exp.Fields...), exp.Groups...)
-	ok := false
-	if !exp.Unordered {
-		ok = actual == strings.Join(want, "; ") // exact string (paths of unnamed types may themselves contain "; ")
-	} else {
-		// unnamed struct types render with "; " inside their name: replace the name before splitting
-		if ty := reflect.TypeOf(src); ty != nil {
-			for ty.Kind() == reflect.Ptr || ty.Kind() == reflect.Slice || ty.Kind() == reflect.Array || ty.Kind() == reflect.Map {
-				ty = ty.Elem()
+	// unnamed struct types render with "; " inside their name: replace the name before splitting
+	fieldsW := append([]string{}, exp.Fields...)
+	groupsW := append([]string{}, exp.Groups...)
+	if ty := reflect.TypeOf(src); ty != nil {
+		for ty.Kind() == reflect.Ptr || ty.Kind() == reflect.Slice || ty.Kind() == reflect.Array || ty.Kind() == reflect.Map {
+			ty = ty.Elem()
+		}
+		if n := ty.String(); strings.Contains(n, "; ") {
+			actual = strings.ReplaceAll(actual, n, "T")
+			for i := range fieldsW {
+				fieldsW[i] = strings.ReplaceAll(fieldsW[i], n, "T")
 			}
-			if n := ty.String(); strings.Contains(n, "; ") {
-				actual = strings.ReplaceAll(actual, n, "T")
-				got = errparse.Split(actual)
-				for i := range want {
-					want[i] = strings.ReplaceAll(want[i], n, "T")
-				}
+			for i := range groupsW {
+				groupsW[i] = strings.ReplaceAll(groupsW[i], n, "T")
 			}
 		}
 	}
-	if exp.Unordered && len(got) == len(want) {
-		ok = true
-		g := append([]string{}, got...)
-		sort.Strings(g)
-		w := append([]string{}, want...)
-		sort.Strings(w)
-		for i := range w {
-			if g[i] != w[i] {
-				ok = false
+	got := errparse.Split(actual)
+	want := append(append([]string{}, fieldsW...), groupsW...)
+	sameSet := func(a, b []string) bool {
+		if len(a) != len(b) {
+			return false
+		}
+		x := append([]string{}, a...)
+		y := append([]string{}, b...)
+		sort.Strings(x)
+		sort.Strings(y)
+		for i := range x {
+			if x[i] != y[i] {
+				return false
 			}
+		}
+		return true
+	}
+	// field clauses in walk order (a multiset when a map with >= 2 entries is iterated), group clauses after all of
+	// them, in unspecified order among themselves
+	ok := false
+	if len(got) == len(want) {
+		gf, gg := got[:len(fieldsW)], got[len(fieldsW):]
+		if exp.Unordered {
+			ok = sameSet(gf, fieldsW) && sameSet(gg, groupsW)
+		} else {
+			ok = strings.Join(gf, "; ") == strings.Join(fieldsW, "; ") && sameSet(gg, groupsW)
 		}
 	}
 	if ok {
@@ -481,7 +498,7 @@ func main() {
 		Technique: "bounded-exhaustive enumeration of acyclic object graphs (container grammar, depth<=3) vs walk reference model (expected clause/path list)",
 		Rule: "types: 13 containers of Leaf {T,*T,**T,[]T,[]*T,[]**T,[2]T,[2]*T,map[string]T,map[string]*T,map[int]*T,map[bool]T,map[int32]**T} x marks {required,exist,none} as one or two fields (+unexported, time.Time, unmarked extras), " +
 			"nested once more through every container of Mid (depth 3); values: nil / zero / valid / violating nodes, collections of length 0..2 with every mix; top-level input T,*T,**T,[]T,[]*T,[2]T,map[string]*T,map[int]T; " +
-			"plus a named Parent/Mid/Leaf family; expected clauses from the walk model, compared in order (as a multiset when a map with >=2 entries is iterated); non-trivial = a violation at depth>=2",
+			"plus a named Parent/Mid/Leaf family; Leaf = {required, to=1~3, either group of two}; expected clauses from the walk model: field clauses compared in order (as a multiset when a map with >=2 entries is iterated), group clauses (reported after the walk, path-qualified per sub-object) after them as a multiset; non-trivial = a violation at depth>=2",
 		Assumptions: []string{"acyclic graphs only (statement)", "walk model internal/walk"},
 		Run:         run,
 	})
